@@ -254,6 +254,7 @@ type World struct {
 	bursted    map[string]bool // sources that have relayed their burst
 	fetchFail  int // the next n GetOutputs calls of the application's output fetcher fail
 	enabledAtKey []string
+	lateSub    [][]byte // filter the application has not re-subscribed yet after restart:late
 	offBestAt  map[string]int64 // block name -> when the peer's best chain dropped it (first time)
 	drainTimeouts bool // the last drain only converged (if at all) after letting request time-outs fire
 	slack      int64 // timing slack (ns) the oracles grant when a scheduling deviation delayed a thread
